@@ -1,13 +1,47 @@
-(* C06 — pinned statements; proofs live in Proofs/. *)
-From NW Require Import Base.Bytes Model.SchemaTypes Gen.Schema Model.Codec Model.Ids Model.Server.
+(* C06 — No link acts before its handshake succeeds; connection state only advances.
+   Pinned statements (types pasted verbatim from the proved lemmas by tools/pin.py); proofs in Proofs/Server*.v. *)
+From NW Require Import Base.Bytes Model.SchemaTypes Gen.Schema Model.Codec Model.MsgInfo Model.Ids Model.Server.
+From NW Require Import Proofs.ServerLib Proofs.ServerRoute Proofs.ServerHandlers Proofs.ServerSteps Proofs.ServerPhases.
+From NW Require Import Proofs.ServerInvBase Proofs.ServerInv Proofs.ServerUniq Proofs.ServerInvCor.
 
-(* the model computes: a client connects, identifies and creates a channel *)
-Example C06_model_smoke :
-  let cfg := {| domain := bs "localhost"; has_mod := false; op_auth := false; op_fbp := false; op_fev := false; op_spp := false;
-                proto := []; max_clients := 10; max_subs := 10; max_payload_cfg := 1024; max_inflight := 10; max_message := 1024;
-                keepalive := 60000; min_keepalive := 1000; max_conns := 16; pool_budget := 4194304 |} in
-  let s := run_state cfg init [Open 1; Bytes 1 (bs "CONNECT version=1 heartbeat_interval=0" ++ [NL]) [] [];
-                               Bytes 1 (bs "IDENTIFY username=alice" ++ [NL]) [] [];
-                               Bytes 1 (bs "JOIN id=1 channel=!c1@localhost" ++ [NL]) [] []] in
-  map fst (chans s) = [bs "c1"] /\ map fst (router s) = [bs "alice"].
-Proof. vm_compute. split; reflexivity. Qed.
+Theorem C06_preauth_is_inert :
+  forall (cfg : scfg) (h : N) (m : msg) (p : option (list N)) (c : ctx) (cn : conn),
+    nlookup h (conns (st c)) = Some cn ->
+    c_phase cn = Connecting \/ c_phase cn = Connected ->
+    existsb (N.eqb h) (closing c) = false -> preauth_summary cfg h m c (on_frame cfg h m p c) cn.
+Proof. exact C06_preauth_inert. Qed.
+
+Theorem C06_phase_monotone :
+  forall (cfg : scfg) (s : state) (o : op) (s' : state) (os : list out),
+    step cfg s o = (s', os) ->
+    (forall h' : N, o = Open h' -> nlookup h' (conns s) = None) ->
+    forall (h : N) (cn cn' : conn),
+    nlookup h (conns s) = Some cn ->
+    nlookup h (conns s') = Some cn' ->
+    (phase_rank (c_phase cn) <= phase_rank (c_phase cn'))%nat /\
+    (c_phase cn = Authenticated -> cn' = cn) /\
+    (conns_wf s -> forall n : nid, c_nid cn = Some n -> c_nid cn' = Some n).
+Proof. exact C06_monotone. Qed.
+
+Theorem C06_no_reidentify :
+  forall (cfg : scfg) (h : N) (m : msg) (p : option (list N)) (c : ctx) (cn : conn) (me : nid),
+    nlookup h (conns (st c)) = Some cn ->
+    c_phase cn = Authenticated ->
+    c_nid cn = Some me ->
+    existsb (N.eqb h) (closing c) = false ->
+    max_inflight cfg <> 0 ->
+    is_kind m "CONNECT" = true \/ is_kind m "IDENTIFY" = true \/ is_kind m "AUTH" = true ->
+    on_frame cfg h m p c =
+    {|
+      st := st c;
+      script := script c;
+      hints := hints c;
+      outs := outs c ++ [OClose h (err_msg None "UNEXPECTED_MESSAGE")];
+      closing := closing c ++ [h]
+    |}.
+Proof. exact C06_auth_rejects_handshake. Qed.
+
+Theorem C06_conns_wf_reachable :
+  forall (cfg : scfg) (ops : list op) (s : state),
+    conns_wf s -> conns_wf (run_state cfg s ops).
+Proof. exact run_state_wf. Qed.
